@@ -59,6 +59,12 @@ class FileHeaderItem(EFLRItem):
 
         super().__init__(name=identifier, parent=parent)
 
+    def __setattr__(self, key: str, value: Any) -> None:
+        if key == 'header_id':
+            value = validate_string(value)  # an ID given later is held to the same rules as one given at creation
+
+        return super().__setattr__(key, value)
+
     def __repr__(self) -> str:
         return (f"{self.__class__.__name__}(header_id={self.header_id}, sequence_number={self.sequence_number}, "
                 f"parent=FileHeaderSet())")
